@@ -3,7 +3,7 @@ import QV.Proofs.CompilerReplay
 import QV.Proofs.CompilerBennett
 import QV.Model.CompilerClass
 /-!
-# Cleanliness of the compiler model on the tree-like fragment without De Morgan `Or`
+# Cleanliness of the compiler model on the tree-like fragment
 
 `CompilerSem.lean` proves what the result qubit holds.  This file proves the *shape* of the emitted
 gate list that makes the inline `uncompute` a correct Bennett replay (`replay_clean`):
@@ -13,12 +13,17 @@ gate list that makes the inline `uncompute` a correct Bennett replay (`replay_cl
 * no gate targets an argument qubit,
 * every target is a marked qubit or the result qubit,
 
-for every expression of the fragment in which every `Or` has at most two arguments (`smallOr`; the De
-Morgan branch of `compile_or` flips argument qubits and breaks the second point).  The shape is a
-two-state relation `Cl` with *pending* controls / targets (qubits a later step of the caller still has
-to mark), one lemma per primitive, one per `compile_*` branch (`exprCl_*`), tied by the same mutual
-structural recursion as `exprSem`.  The semantic facts needed on the way (cache misses, fresh
-ancillas, `Pre` at intermediate states) are taken from `exprSem` / `argsSem` / `xorSem`.
+for every expression of the fragment (`overInputs`, `treeLike`).  The repaired `compile_or` folds
+binary ors into new marked ancillas for more than two distinct argument qubits (`orChain_cl`,
+`orWide_cl`) and applies no `X` gate to an argument qubit, so the former restriction to `Or`s with at
+most two arguments (`smallOr`) is gone.  The shape is a two-state relation `Cl` with *pending* controls /
+targets (qubits a later step of the caller still has to mark), one lemma per primitive, one per
+`compile_*` branch (`exprCl_*`), tied by the same mutual structural recursion as `exprSem`.  `Cl` also
+says that `kept_ancillas` does not change: `mark_ancilla` ignores kept ancillas, so "an ancilla gets
+marked" holds from states with `kept = []` (the hypothesis `s.qc.kept = []` of the specifications; the
+single statement of the fragment starts from such a state).  The semantic facts needed on the way
+(cache misses, fresh ancillas, `Pre` at intermediate states) are taken from `exprSem` / `argsSem` /
+`xorSem`.
 -/
 namespace QV.Compiler
 open QV
@@ -37,22 +42,23 @@ structure Cl (n : Nat) (Pc Pt : Nat → Prop) (s s' : CState) : Prop where
   comp : s.qc.gatesComputed = s.qc.gates → s'.qc.gatesComputed = s'.qc.gates
   mks : ∀ m ∈ s.qc.marked, m ∈ s'.qc.marked
   anc : ∀ m ∈ s.qc.anc, m ∈ s'.qc.anc
+  kept : s'.qc.kept = s.qc.kept
 
 abbrev NoP : Nat → Prop := fun _ => False
 
 theorem Cl.quiet {n : Nat} {Pc Pt : Nat → Prop} {s s' : CState} (hg : s'.qc.gates = s.qc.gates)
     (hc : s'.qc.gatesComputed = s.qc.gatesComputed) (hm : ∀ m ∈ s.qc.marked, m ∈ s'.qc.marked)
-    (ha : ∀ m ∈ s.qc.anc, m ∈ s'.qc.anc) : Cl n Pc Pt s s' :=
-  ⟨⟨[], by rw [hg]; simp, fun g hg' => by cases hg'⟩, fun h => by rw [hc, hg]; exact h, hm, ha⟩
+    (ha : ∀ m ∈ s.qc.anc, m ∈ s'.qc.anc) (hk : s'.qc.kept = s.qc.kept) : Cl n Pc Pt s s' :=
+  ⟨⟨[], by rw [hg]; simp, fun g hg' => by cases hg'⟩, fun h => by rw [hc, hg]; exact h, hm, ha, hk⟩
 
 theorem Cl.refl {n : Nat} {Pc Pt : Nat → Prop} (s : CState) : Cl n Pc Pt s s :=
-  Cl.quiet rfl rfl (fun _ h => h) (fun _ h => h)
+  Cl.quiet rfl rfl (fun _ h => h) (fun _ h => h) rfl
 
 /-- `Cl` only looks at the circuit part of the states -/
 theorem Cl.of_qc {n : Nat} {Pc Pt : Nat → Prop} {s s' t t' : CState} (h : Cl n Pc Pt s s')
     (e1 : t.qc = s.qc) (e2 : t'.qc = s'.qc) : Cl n Pc Pt t t' :=
   ⟨by rw [e1, e2]; exact h.ext, by rw [e1, e2]; exact h.comp, by rw [e1, e2]; exact h.mks,
-   by rw [e1, e2]; exact h.anc⟩
+   by rw [e1, e2]; exact h.anc, by rw [e1, e2]; exact h.kept⟩
 
 /-- composition; pending qubits of both parts are discharged against the final marks or stay pending -/
 theorem Cl.trans {n : Nat} {Pc1 Pt1 Pc2 Pt2 Pc Pt : Nat → Prop} {s s1 s2 : CState}
@@ -64,7 +70,7 @@ theorem Cl.trans {n : Nat} {Pc1 Pt1 Pc2 Pt2 Pc Pt : Nat → Prop} {s s1 s2 : CSt
   obtain ⟨new1, e1, g1⟩ := h1.ext
   obtain ⟨new2, e2, g2⟩ := h2.ext
   refine ⟨⟨new1 ++ new2, by rw [e2, e1, List.append_assoc], ?_⟩, fun h => h2.comp (h1.comp h),
-    fun m hm => h2.mks m (h1.mks m hm), fun m hm => h2.anc m (h1.anc m hm)⟩
+    fun m hm => h2.mks m (h1.mks m hm), fun m hm => h2.anc m (h1.anc m hm), h2.kept.trans h1.kept⟩
   intro g hg
   rcases List.mem_append.mp hg with hg | hg
   · obtain ⟨a, b, c⟩ := g1 g hg
@@ -138,7 +144,7 @@ theorem append_cl {n : Nat} {cls : GClass} {cs : List Nat} {t : Nat} {u : Unit} 
   obtain ⟨b, h⟩ := run_discard_ok.mp h
   obtain ⟨g, _, hw, hg, hgc⟩ := appendG_comp h hn
   refine ⟨⟨[g], by rw [hg]; simp, ?_⟩, fun e => by rw [hgc, hg, e],
-    fun m hm => by rw [ha.marked]; exact hm, fun m hm => by rw [ha.anc]; exact hm⟩
+    fun m hm => by rw [ha.marked]; exact hm, fun m hm => by rw [ha.anc]; exact hm, ha.kept⟩
   intro g' hg'
   have : g' = g := by simpa using hg'
   subst this
@@ -157,42 +163,40 @@ theorem mcx_cl {n : Nat} {cs : List Nat} {t : Nat} {u : Unit} {s s' : CState}
     (h : (mcx cs t).run s = .ok (u, s')) (ht : n ≤ t) : Cl n (· ∈ cs) (· = t) s s' :=
   append_cl h rfl ht
 
-/-- `mark_ancilla` marks an ancilla (lower bound; `markAncilla_run` has the upper bound) -/
+/-- `mark_ancilla` marks an ancilla that is not kept (lower bound; `markAncilla_run` has the upper bound) -/
 theorem markAncilla_cl {w : Nat} {u : Unit} {s s' : CState} (h : (markAncilla w).run s = .ok (u, s')) :
     s'.qc.gates = s.qc.gates ∧ s'.qc.gatesComputed = s.qc.gatesComputed ∧ s'.qc.anc = s.qc.anc ∧
-      (∀ m ∈ s.qc.marked, m ∈ s'.qc.marked) ∧ (w ∈ s.qc.anc → w ∈ s'.qc.marked) := by
+      s'.qc.kept = s.qc.kept ∧
+      (∀ m ∈ s.qc.marked, m ∈ s'.qc.marked) ∧ (s.qc.kept = [] → w ∈ s.qc.anc → w ∈ s'.qc.marked) := by
   unfold markAncilla at h
-  dsimp only at h
   obtain ⟨qc, s1, hq, h⟩ := run_bind_ok.mp h
   obtain ⟨rfl, rfl⟩ := getQC_run hq
   split at h
-  · split at h
-    · obtain ⟨u1, s2, hev, hm⟩ := run_bind_ok.mp h
-      have := event_run hev; subst this
-      have := modQC_run hm; subst this
-      exact ⟨rfl, rfl, rfl, fun m hm => mem_setIns_iff.mpr (Or.inl hm), fun _ => mem_setIns_iff.mpr (Or.inr rfl)⟩
-    · have := modQC_run h; subst this
-      exact ⟨rfl, rfl, rfl, fun m hm => mem_setIns_iff.mpr (Or.inl hm), fun _ => mem_setIns_iff.mpr (Or.inr rfl)⟩
+  · have := modQC_run h; subst this
+    exact ⟨rfl, rfl, rfl, rfl, fun m hm => mem_setIns_iff.mpr (Or.inl hm), fun _ _ => mem_setIns_iff.mpr (Or.inr rfl)⟩
   · next hc =>
     obtain ⟨_, rfl⟩ := run_pure_ok.mp h
-    exact ⟨rfl, rfl, rfl, fun m hm => hm, fun hw => absurd (by simpa using hw) hc⟩
+    refine ⟨rfl, rfl, rfl, rfl, fun m hm => hm, fun hk hw => absurd ?_ hc⟩
+    rw [hk]
+    simpa using hw
 
 theorem markAll_cl : ∀ (ws : List Nat) {u : Unit} {s s' : CState}, (markAll ws).run s = .ok (u, s') →
     s'.qc.gates = s.qc.gates ∧ s'.qc.gatesComputed = s.qc.gatesComputed ∧ s'.qc.anc = s.qc.anc ∧
-      (∀ m ∈ s.qc.marked, m ∈ s'.qc.marked) ∧ (∀ w ∈ ws, w ∈ s.qc.anc → w ∈ s'.qc.marked)
+      s'.qc.kept = s.qc.kept ∧
+      (∀ m ∈ s.qc.marked, m ∈ s'.qc.marked) ∧ (s.qc.kept = [] → ∀ w ∈ ws, w ∈ s.qc.anc → w ∈ s'.qc.marked)
   | [], u, s, s', h => by
     unfold markAll at h
     obtain ⟨_, rfl⟩ := run_pure_ok.mp h
-    exact ⟨rfl, rfl, rfl, fun m hm => hm, fun w hw => by cases hw⟩
+    exact ⟨rfl, rfl, rfl, rfl, fun m hm => hm, fun _ w hw => by cases hw⟩
   | w :: ws, u, s, s', h => by
     unfold markAll at h
     obtain ⟨u1, s1, h1, h2⟩ := run_bind_ok.mp h
-    obtain ⟨a1, a2, a3, a4, a5⟩ := markAncilla_cl h1
-    obtain ⟨b1, b2, b3, b4, b5⟩ := markAll_cl ws h2
-    refine ⟨b1.trans a1, b2.trans a2, b3.trans a3, fun m hm => b4 m (a4 m hm), fun x hx ha => ?_⟩
+    obtain ⟨a1, a2, a3, ak, a4, a5⟩ := markAncilla_cl h1
+    obtain ⟨b1, b2, b3, bk, b4, b5⟩ := markAll_cl ws h2
+    refine ⟨b1.trans a1, b2.trans a2, b3.trans a3, bk.trans ak, fun m hm => b4 m (a4 m hm), fun hk x hx ha => ?_⟩
     rcases List.mem_cons.mp hx with rfl | hx
-    · exact b4 _ (a5 ha)
-    · exact b5 x hx (by rw [a3]; exact ha)
+    · exact b4 _ (a5 hk ha)
+    · exact b5 (ak.trans hk) x hx (by rw [a3]; exact ha)
 
 /-- with an empty free set `get_free_ancilla` adds the new qubit to the ancilla set -/
 theorem getFreeAncilla_cl {n : Nat} {Pc Pt : Nat → Prop} {a : Nat} {s s' : CState}
@@ -221,7 +225,7 @@ theorem getFreeAncilla_cl {n : Nat} {Pc Pt : Nat → Prop} {a : Nat} {s s' : CSt
       obtain ⟨rfl, rfl⟩ := hs4
       obtain ⟨rfl, rfl⟩ := addQubit_run hadd
       have := modQC_run hm; subst this
-      exact ⟨Cl.quiet rfl rfl (fun _ hm => hm) (fun m hm => mem_setIns_iff.mpr (Or.inl hm)),
+      exact ⟨Cl.quiet rfl rfl (fun _ hm => hm) (fun m hm => mem_setIns_iff.mpr (Or.inl hm)) rfl,
         mem_setIns_iff.mpr (Or.inr rfl)⟩
     · next hne => exact absurd (by rw [hf]; rfl) hne
 
@@ -233,7 +237,7 @@ symbol) or an ancilla -/
 def ExprCl (inputs : List String) (ρ : Env) (σ0 : FState) (r : String) (e : BExp) : Prop :=
   ∀ (dest : Option Nat) (sym : Option String) {a : Nat} {s s' : CState},
     (compileExpr e dest sym).run s = .ok (a, s') →
-    Pre inputs ρ σ0 s →
+    Pre inputs ρ σ0 s → s.qc.kept = [] →
     (∀ p ∈ s.expq, ∀ c ∈ compSubs e, (p.1 == c) = false) →
     (∀ d, dest = some d → inputs.length ≤ d ∧ d < s.qc.numQubits) →
     (∀ x, sym = some x → x = r) →
@@ -243,13 +247,13 @@ def ExprCl (inputs : List String) (ρ : Env) (σ0 : FState) (r : String) (e : BE
 
 def ArgsCl (inputs : List String) (ρ : Env) (σ0 : FState) (_r : String) (as : List BExp) : Prop :=
   ∀ {rs : List Nat} {s s' : CState}, (compileArgs as).run s = .ok (rs, s') →
-    Pre inputs ρ σ0 s →
+    Pre inputs ρ σ0 s → s.qc.kept = [] →
     (∀ p ∈ s.expq, ∀ c ∈ compSubsList as, (p.1 == c) = false) →
     Cl inputs.length NoP (· ∈ rs) s s' ∧ ∀ q ∈ rs, q < inputs.length ∨ q ∈ s'.qc.anc
 
 def XorCl (inputs : List String) (ρ : Env) (σ0 : FState) (_r : String) (as : List BExp) : Prop :=
   ∀ (d : Nat) {a : Nat} {s s' : CState}, (compileXorArgs as d).run s = .ok (a, s') →
-    Pre inputs ρ σ0 s →
+    Pre inputs ρ σ0 s → s.qc.kept = [] →
     (∀ p ∈ s.expq, ∀ c ∈ compSubsList as, (p.1 == c) = false) →
     inputs.length ≤ d → d < s.qc.numQubits →
     Cl inputs.length NoP (· = d) s s'
@@ -272,7 +276,7 @@ theorem expr_pre {inputs : List String} {ρ : Env} {σ0 : FState} {r : String} (
 
 theorem exprCl_sym {inputs : List String} {ρ : Env} {σ0 : FState} {r : String} (n : String)
     (hin : n ∈ inputs) : ExprCl inputs ρ σ0 r (.sym n) := by
-  intro dest sym a s s' h hp _ _ _ hsym
+  intro dest sym a s s' h hp _ _ _ _ hsym
   obtain ⟨rfl, rfl⟩ := hsym rfl
   unfold compileExpr at h
   obtain ⟨rfl, hq⟩ := compileSymbol_none_run h
@@ -287,7 +291,7 @@ theorem exprCl_sym {inputs : List String} {ρ : Env} {σ0 : FState} {r : String}
 theorem exprCl_not {inputs : List String} {ρ : Env} {σ0 : FState} {r : String} (amb : Amb inputs σ0 r)
     {x : BExp} (hov : overInputs inputs x = true) (hdis : Distinct (compSubs x))
     (ih : ExprCl inputs ρ σ0 r x) : ExprCl inputs ρ σ0 r (.not x) := by
-  intro dest sym a s s' h hp hcache hd hsym _
+  intro dest sym a s s' h hp hk hcache hd hsym _
   unfold compileExpr at h
   dsimp only at h
   obtain ⟨r0, s1, hget, h1⟩ := run_bind_ok.mp h
@@ -304,14 +308,18 @@ theorem exprCl_not {inputs : List String} {ρ : Env} {σ0 : FState} {r : String}
         exact (amb.fresh n hn).1 (e1.trans (hsym sy rfl))
       | none => simp at hc
     | _ => simp at hc
-  · obtain ⟨eret, s2, he, h2⟩ := run_bind_ok.mp h1
+  · obtain ⟨sh, s1', hsh, k1⟩ := run_bind_ok.mp h1
+    have hs1' := (expqGet?_ok hsh hp.good).1
+    rw [hs1'] at k1
+    obtain ⟨eret, s2, he, h2⟩ := run_bind_ok.mp k1
     have hcache1 : ∀ p ∈ s1.expq, ∀ c ∈ compSubs x, (p.1 == c) = false :=
       fun p hp' c hc => hcache p hp' c (by simp [compSubs, hc])
     obtain ⟨hp2, _, _, _⟩ := expr_pre amb hov hdis he hp hcache1 (by intro d hd0; cases hd0)
       (by intro y hy; cases hy) (fun _ => ⟨rfl, rfl⟩)
-    obtain ⟨cl1, hres1⟩ := ih none none he hp hcache1 (by intro d hd0; cases hd0)
+    obtain ⟨cl1, hres1⟩ := ih none none he hp hk hcache1 (by intro d hd0; cases hd0)
       (by intro y hy; cases hy) (fun _ => ⟨rfl, rfl⟩)
     have hres := hres1 rfl
+    have hk2 : s2.qc.kept = [] := cl1.kept.trans hk
     obtain ⟨qc, s3, hq, h3⟩ := run_bind_ok.mp h2
     obtain ⟨rfl, rfl⟩ := getQC_run hq
     split at h3
@@ -322,7 +330,7 @@ theorem exprCl_not {inputs : List String} {ρ : Env} {σ0 : FState} {r : String}
         | none => rfl
         | some d => simp at hcond
       subst hdn
-      have hanc : eret ∈ s3.qc.anc := by simpa using hcond.2
+      have hanc : eret ∈ s3.qc.anc := by simpa using hcond.1.2
       obtain ⟨u1, s4, hev, h4⟩ := run_bind_ok.mp h3
       obtain ⟨u2, s5, hx, h5⟩ := run_bind_ok.mp h4
       obtain ⟨u3, s6, hset, h6⟩ := run_bind_ok.mp h5
@@ -333,7 +341,7 @@ theorem exprCl_not {inputs : List String} {ρ : Env} {σ0 : FState} {r : String}
       have clx := (xGate_cl (n := inputs.length) hx (hp2.sge.1 a hanc)).of_qc (t := s3) (t' := s') rfl hq6
       refine ⟨Cl.trans cl1 clx (fun _ h => h.elim) (fun q _ h => Or.inr h) (fun _ h => nomatch h)
         (fun q _ h => Or.inr h), fun _ => Or.inr (clx.anc a hanc)⟩
-    · have body : ∀ {d : Nat} {s4 s5 : CState} {a : Nat}, inputs.length ≤ d →
+    · have body : ∀ {d : Nat} {s4 s5 : CState} {a : Nat}, inputs.length ≤ d → s4.qc.kept = [] →
           StateT.run (do
             cx eret d
             xGate d
@@ -344,20 +352,21 @@ theorem exprCl_not {inputs : List String} {ρ : Env} {σ0 : FState} {r : String}
               else pure d : M Nat) s4 = .ok (a, s5) →
           a = d ∧ Cl inputs.length (fun q => q = eret ∧ eret ∉ s4.qc.anc) (· = d) s4 s5 ∧
             (eret ∈ s4.qc.anc → eret ∈ s5.qc.marked) := by
-        intro d s4 s5 a hdn hrun
+        intro d s4 s5 a hdn hk4 hrun
         obtain ⟨u1, t1, hcx, k1⟩ := run_bind_ok.mp hrun
         obtain ⟨u2, t2, hx, k2⟩ := run_bind_ok.mp k1
         obtain ⟨u3, t3, hmk, k3⟩ := run_bind_ok.mp k2
         have a1 := cx_cl (n := inputs.length) hcx hdn
         have a2 := xGate_cl (n := inputs.length) hx hdn
-        obtain ⟨m1, m2, m3, m4, m5⟩ := markAncilla_cl hmk
+        obtain ⟨m1, m2, m3, mk, m4, m5'⟩ := markAncilla_cl hmk
         have hanc2 : t2.qc.anc = s4.qc.anc := (xGate_run hx).anc.trans (cx_run hcx).anc
+        have m5 := m5' (((xGate_run hx).kept.trans (cx_run hcx).kept).trans hk4)
         have fin : ∀ {t4 : CState}, t4.qc = t3.qc →
             Cl inputs.length (fun q => q = eret ∧ eret ∉ s4.qc.anc) (· = d) s4 t4 ∧
             (eret ∈ s4.qc.anc → eret ∈ t4.qc.marked) := by
           intro t4 e4
           have a3 : Cl inputs.length NoP NoP t2 t4 :=
-            (Cl.quiet (s := t2) (s' := t3) m1 m2 m4 (fun m hm => by rw [m3]; exact hm)).of_qc rfl e4
+            (Cl.quiet (s := t2) (s' := t3) m1 m2 m4 (fun m hm => by rw [m3]; exact hm) mk).of_qc rfl e4
           have hmk' : eret ∈ s4.qc.anc → eret ∈ t4.qc.marked := fun ha => by
             rw [e4]; exact m5 (by rw [hanc2]; exact ha)
           refine ⟨Cl.trans (Cl.trans a1 a2 (Pc := (· ∈ [eret])) (Pt := (· = d)) (fun q h => Or.inr (Or.inr h))
@@ -386,7 +395,7 @@ theorem exprCl_not {inputs : List String} {ρ : Env} {σ0 : FState} {r : String}
         dsimp only at h3
         obtain ⟨d0, s4, hp0, h4⟩ := run_bind_ok.mp h3
         obtain ⟨rfl, rfl⟩ := run_pure_ok.mp hp0
-        obtain ⟨rfl, clb, hmk⟩ := body (hd _ rfl).1 h4
+        obtain ⟨rfl, clb, hmk⟩ := body (hd _ rfl).1 hk2 h4
         refine ⟨Cl.trans cl1 clb (fun _ h => h.elim) ?_ ?_ (fun q _ h => Or.inr h), fun hn => by cases hn⟩
         · intro q hq he
           subst he
@@ -400,7 +409,7 @@ theorem exprCl_not {inputs : List String} {ρ : Env} {σ0 : FState} {r : String}
         obtain ⟨d, s4, hf, h4⟩ := run_bind_ok.mp h3
         obtain ⟨_, _, hdf, _⟩ := getFreeAncilla_sem (σ0 := σ0) hf hp2.free
         obtain ⟨clf, hdanc⟩ := getFreeAncilla_cl (n := inputs.length) (Pc := NoP) (Pt := NoP) hf hp2.free
-        obtain ⟨rfl, clb, hmk⟩ := body (by rw [hdf]; exact hp2.nin) h4
+        obtain ⟨rfl, clb, hmk⟩ := body (by rw [hdf]; exact hp2.nin) (clf.kept.trans hk2) h4
         refine ⟨Cl.trans (Cl.trans cl1 clf (Pc := NoP) (Pt := (· = eret)) (fun _ h => h.elim) (fun q _ h => Or.inr h)
             (fun _ h => h.elim) (fun _ _ h => h.elim)) clb (fun _ h => h.elim) ?_ ?_ (fun q _ h => Or.inr h),
           fun _ => Or.inr (clb.anc _ hdanc)⟩
@@ -416,7 +425,7 @@ theorem exprCl_not {inputs : List String} {ρ : Env} {σ0 : FState} {r : String}
 
 theorem argsCl_nil {inputs : List String} {ρ : Env} {σ0 : FState} {r : String} :
     ArgsCl inputs ρ σ0 r [] := by
-  intro rs s s' h _ _
+  intro rs s s' h _ _ _
   unfold compileArgs at h
   obtain ⟨rfl, rfl⟩ := run_pure_ok.mp h
   exact ⟨Cl.refl _, fun q hq => by cases hq⟩
@@ -426,7 +435,7 @@ theorem argsCl_cons {inputs : List String} {ρ : Env} {σ0 : FState} {r : String
     (iha : ExprCl inputs ρ σ0 r a) (ihs : ArgsCl inputs ρ σ0 r as)
     (hdis : ∀ x ∈ compSubs a, ∀ y ∈ compSubsList as, (x == y) = false) :
     ArgsCl inputs ρ σ0 r (a :: as) := by
-  intro rs s s' h hp hcache
+  intro rs s s' h hp hk hcache
   unfold compileArgs at h
   obtain ⟨q1, s1, h1, h2⟩ := run_bind_ok.mp h
   obtain ⟨rs', s2, h3, h4⟩ := run_bind_ok.mp h2
@@ -435,9 +444,9 @@ theorem argsCl_cons {inputs : List String} {ρ : Env} {σ0 : FState} {r : String
     fun p hp' c hc => hcache p hp' c (by simp [compSubsList, hc])
   obtain ⟨hp1, _, sem1, _⟩ := expr_pre amb hov hda h1 hp hc1 (by intro d hd0; cases hd0)
     (by intro y hy; cases hy) (fun _ => ⟨rfl, rfl⟩)
-  obtain ⟨cl1, hres1⟩ := iha none none h1 hp hc1 (by intro d hd0; cases hd0)
+  obtain ⟨cl1, hres1⟩ := iha none none h1 hp hk hc1 (by intro d hd0; cases hd0)
     (by intro y hy; cases hy) (fun _ => ⟨rfl, rfl⟩)
-  obtain ⟨cl2, hb⟩ := ihs h3 hp1 (cache_next hcache sem1 (fun _ h => h) hdis)
+  obtain ⟨cl2, hb⟩ := ihs h3 hp1 (cl1.kept.trans hk) (cache_next hcache sem1 (fun _ h => h) hdis)
   refine ⟨Cl.trans cl1 cl2 (fun _ h => h.elim) (fun q _ h => Or.inr (by rw [h]; exact List.mem_cons_self))
     (fun _ h => h.elim) (fun q _ h => Or.inr (List.mem_cons_of_mem _ h)), ?_⟩
   intro q hq
@@ -455,11 +464,12 @@ theorem finish_cl {n : Nat} {Pc Pt : Nat → Prop} {es : List Nat} {dest : Optio
           if dest.isNone = true then do
               expqSet e d
               pure d
-            else pure d : M Nat) s = .ok (a, s')) :
+            else pure d : M Nat) s = .ok (a, s')) (hk : s.qc.kept = []) :
     a = d ∧ Cl n Pc Pt s s' ∧ (∀ w ∈ es, w ∈ s.qc.anc → w ∈ s'.qc.marked) := by
   obtain ⟨u1, s1, hm, h1⟩ := run_bind_ok.mp h
-  obtain ⟨m1, m2, m3, m4, m5⟩ := markAll_cl es hm
-  have cl : Cl n Pc Pt s s1 := Cl.quiet m1 m2 m4 (fun m hm' => by rw [m3]; exact hm')
+  obtain ⟨m1, m2, m3, mk, m4, m5'⟩ := markAll_cl es hm
+  have m5 := m5' hk
+  have cl : Cl n Pc Pt s s1 := Cl.quiet m1 m2 m4 (fun m hm' => by rw [m3]; exact hm') mk
   split at h1
   · obtain ⟨u2, s2, hset, h2⟩ := run_bind_ok.mp h1
     obtain ⟨rfl, rfl⟩ := run_pure_ok.mp h2
@@ -513,7 +523,7 @@ theorem andor_cl {n : Nat} {erets es : List Nat} {d a : Nat} {s1 s2 s3 t s' : CS
 theorem exprCl_and {inputs : List String} {ρ : Env} {σ0 : FState} {r : String} (amb : Amb inputs σ0 r)
     {args : List BExp} (hov : overInputsList inputs args = true) (hdis : Distinct (compSubsList args))
     (ih : ArgsCl inputs ρ σ0 r args) : ExprCl inputs ρ σ0 r (.and args) := by
-  intro dest sym a s s' h hp hcache hd hsym _
+  intro dest sym a s s' h hp hk hcache hd hsym _
   unfold compileExpr at h
   dsimp only at h
   obtain ⟨r0, s1, hget, h1⟩ := run_bind_ok.mp h
@@ -524,7 +534,8 @@ theorem exprCl_and {inputs : List String} {ρ : Env} {σ0 : FState} {r : String}
     fun p hp' c hc => hcache p hp' c (by simp [compSubs, hc])
   obtain ⟨st1, _⟩ := argsSpec (B := (· = r)) args hargs hp.good
   obtain ⟨sem1, _, hb⟩ := argsSem (ρ := ρ) amb args hov hdis hargs hp hc1
-  obtain ⟨cl1, hbc⟩ := ih hargs hp hc1
+  obtain ⟨cl1, hbc⟩ := ih hargs hp hk hc1
+  have hk2 : s2.qc.kept = [] := cl1.kept.trans hk
   have hp2 : Pre inputs ρ σ0 s2 := hp.next amb st1 sem1 (by intro q hq; exact hq.elim)
   have body : ∀ {d : Nat} {s3 : CState},
       (destOr dest).run s2 = .ok (d, s3) →
@@ -556,6 +567,7 @@ theorem exprCl_and {inputs : List String} {ρ : Env} {σ0 : FState} {r : String}
       obtain ⟨u1, t1, hmcx, k1⟩ := run_bind_ok.mp h3
       have clg := mcx_cl (n := inputs.length) hmcx hdge
       obtain ⟨rfl, clf, hmk⟩ := finish_cl (n := inputs.length) (Pc := NoP) (Pt := NoP) k1
+        (clg.kept.trans (cld.kept.trans hk2))
       exact ⟨andor_cl cl1 hbc cld clg clf hmk (fun q => mem_sortDedup) rfl,
         fun hn => Or.inr (clf.anc _ (clg.anc _ (hdanc hn)))⟩
   cases dest with
@@ -567,23 +579,6 @@ theorem exprCl_and {inputs : List String} {ρ : Env} {σ0 : FState} {r : String}
     dsimp only at h2
     obtain ⟨d, s3, hf, h4⟩ := run_bind_ok.mp h2
     exact body hf h4
-
-theorem length_eraseDups_le (k : Nat) : ∀ l : List Nat, l.length ≤ k → l.eraseDups.length ≤ l.length := by
-  induction k with
-  | zero =>
-    intro l hl
-    have : l = [] := List.length_eq_zero_iff.mp (by omega)
-    subst this; simp
-  | succ k ih =>
-    intro l hl
-    cases l with
-    | nil => simp
-    | cons a as =>
-      rw [List.eraseDups_cons]
-      simp only [List.length_cons] at hl ⊢
-      have h1 := List.length_filter_le (fun b => !b == a) as
-      have := ih (as.filter (fun b => !b == a)) (by omega)
-      omega
 
 theorem cxAll_cl {n d : Nat} : ∀ (es : List Nat) {u : Unit} {s s' : CState},
     (cxAll d es).run s = .ok (u, s') → n ≤ d → Cl n (· ∈ es) (· = d) s s'
@@ -598,8 +593,105 @@ theorem cxAll_cl {n d : Nat} : ∀ (es : List Nat) {u : Unit} {s s' : CState},
       (fun q hq => Or.inr (Or.inr (by simp at hq; rw [hq]; exact List.mem_cons_self)))
       (fun q _ h => Or.inr h) (fun q hq => Or.inr (Or.inr (List.mem_cons_of_mem _ hq))) (fun q _ h => Or.inr h)
 
-/-- the gates of `compile_or` for at most two distinct argument qubits, then the common tail -/
-theorem orGates_cl {n : Nat} {es : List Nat} {dest : Option Nat} {e : BExp} {d a : Nat}
+/-- `cx acc d; cx i d; mcx [acc, i] d` -/
+theorem orGate_cl {n acc i d : Nat} {u : Unit} {s s' : CState}
+    (h : StateT.run (do cx acc d; cx i d; mcx [acc, i] d : M Unit) s = .ok (u, s')) (hd : n ≤ d) :
+    Cl n (fun q => q = acc ∨ q = i) (· = d) s s' ∧ s'.qc.free = s.qc.free ∧
+      s'.qc.numQubits = s.qc.numQubits := by
+  obtain ⟨u1, s1, h1, k1⟩ := run_bind_ok.mp h
+  obtain ⟨u2, s2, h2, k2⟩ := run_bind_ok.mp k1
+  have a1 := cx_run h1
+  have a2 := cx_run h2
+  have a3 : Appended (.MCX [acc, i].length) ([acc, i] ++ [d]) s2 s' := mcx_run k2
+  have c1 := cx_cl (n := n) h1 hd
+  have c2 := cx_cl (n := n) h2 hd
+  have c3 := mcx_cl (n := n) k2 hd
+  have c12 : Cl n (fun q => q = acc ∨ q = i) (· = d) s s2 :=
+    Cl.trans c1 c2 (fun q hq => Or.inr (Or.inr (Or.inl (by simpa using hq)))) (fun q _ h => Or.inr h)
+      (fun q hq => Or.inr (Or.inr (Or.inr (by simpa using hq)))) (fun q _ h => Or.inr h)
+  refine ⟨Cl.trans c12 c3 (fun q hq => Or.inr (Or.inr hq)) (fun q _ h => Or.inr h)
+    (fun q hq => Or.inr (Or.inr (by simpa using hq))) (fun q _ h => Or.inr h),
+    a3.free.trans (a2.free.trans a1.free), a3.nq.trans (a2.nq.trans a1.nq)⟩
+
+/-- the fold of binary ors: every control is the first argument qubit, a later argument qubit or an
+intermediate result, which is a new ancilla that is marked before its gates are emitted -/
+theorem orChain_cl {n dest : Nat} : ∀ (rest : List Nat) (acc : Nat) {u : Unit} {s s' : CState},
+    (orChain dest acc rest).run s = .ok (u, s') → s.qc.free = [] → s.qc.kept = [] →
+    n ≤ s.qc.numQubits → n ≤ dest →
+    Cl n (fun q => q = acc ∨ q ∈ rest) (· = dest) s s'
+  | [], acc, u, s, s', h, _, _, _, _ => by
+    unfold orChain at h
+    obtain ⟨_, rfl⟩ := run_pure_ok.mp h
+    exact Cl.refl _
+  | [i], acc, u, s, s', h, _, _, _, hd => by
+    unfold orChain at h
+    refine (orGate_cl h hd).1.mono (fun q hq => Or.inr (Or.inr ?_)) (fun q _ h => Or.inr h)
+    rcases hq with h | h
+    · exact Or.inl h
+    · exact Or.inr (by simp [h])
+  | i :: j :: rest, acc, u, s, s', h, hf, hk, hn, hd => by
+    unfold orChain at h
+    obtain ⟨d, s1, hfa, k1⟩ := run_bind_ok.mp h
+    obtain ⟨hda, hn1, _, hff, _, _⟩ := getFreeAncilla_fresh hfa hf
+    obtain ⟨clf, hdanc⟩ := getFreeAncilla_cl (n := n) (Pc := NoP) (Pt := NoP) hfa hf
+    obtain ⟨u2, s2, hm, k2⟩ := run_bind_ok.mp k1
+    obtain ⟨m1, m2, m3, mk, m4, m5⟩ := markAncilla_cl hm
+    obtain ⟨_, mn, mf, _, _, _⟩ := markAncilla_run hm
+    have hk1 : s1.qc.kept = [] := clf.kept.trans hk
+    have hdm : d ∈ s2.qc.marked := m5 hk1 hdanc
+    have clm : Cl n NoP NoP s1 s2 := Cl.quiet m1 m2 m4 (fun m hm' => by rw [m3]; exact hm') mk
+    have k2' : StateT.run (do
+        (do cx acc d; cx i d; mcx [acc, i] d : M Unit)
+        orChain dest d (j :: rest) : M Unit) s2 = .ok (u, s') := by
+      simpa only [bind_assoc] using k2
+    obtain ⟨u3, s3, hgate, k3⟩ := run_bind_ok.mp k2'
+    have hdn : n ≤ d := by omega
+    obtain ⟨clg, gf, gn⟩ := orGate_cl (n := n) hgate hdn
+    have ih := orChain_cl (n := n) (j :: rest) d k3 (by rw [gf, mf]; exact hff)
+      (clg.kept.trans (mk.trans hk1)) (by rw [gn, mn, hn1]; omega) hd
+    have hdm' : d ∈ s'.qc.marked := ih.mks _ (clg.mks _ hdm)
+    have c01 : Cl n NoP NoP s s2 := Cl.trans clf clm (fun _ h => h.elim) (fun _ _ h => h.elim)
+      (fun _ h => h.elim) (fun _ _ h => h.elim)
+    have c02 : Cl n (fun q => q = acc ∨ q = i) (· = d) s s3 := Cl.trans c01 clg (fun _ h => h.elim)
+      (fun _ _ h => h.elim) (fun q hq => Or.inr (Or.inr hq)) (fun q _ h => Or.inr h)
+    refine Cl.trans c02 ih ?_ ?_ ?_ (fun q _ h => Or.inr h)
+    · rintro q (h | h)
+      · exact Or.inr (Or.inr (Or.inl h))
+      · exact Or.inr (Or.inr (Or.inr (by simp [h])))
+    · intro q _ h
+      rw [h]; exact Or.inl hdm'
+    · rintro q (h | h)
+      · rw [h]; exact Or.inr (Or.inl hdm')
+      · exact Or.inr (Or.inr (Or.inr (List.mem_cons_of_mem _ h)))
+
+/-- step 4 of `compile_or` for more than two distinct argument qubits -/
+theorem orWide_cl {n d : Nat} {erets es : List Nat} {u : Unit} {s s' : CState}
+    (h : (orWide d erets es).run s = .ok (u, s')) (hf : s.qc.free = []) (hk : s.qc.kept = [])
+    (hn : n ≤ s.qc.numQubits) (hd : n ≤ d) : Cl n (· ∈ es) (· = d) s s' := by
+  unfold orWide at h
+  dsimp only at h
+  rcases run_ite_ok.mp h with ⟨_, h⟩ | ⟨hne, h⟩
+  · obtain ⟨_, _, hthrow, _⟩ := run_bind_ok.mp h
+    exact (run_throw_ok.mp hthrow).elim
+  · have heq : sortNat (pySetOrder erets) = es := by simpa using hne
+    have hmem : ∀ x, x ∈ pySetOrder erets ↔ x ∈ es := by
+      intro x; rw [← heq]; unfold sortNat; exact List.mem_mergeSort.symm
+    cases ho : pySetOrder erets with
+    | nil =>
+      rw [ho] at h
+      obtain ⟨_, rfl⟩ := run_pure_ok.mp h
+      exact Cl.refl _
+    | cons a rest =>
+      rw [ho] at h hmem
+      refine (orChain_cl (n := n) rest a h hf hk hn hd).mono (fun q hq => Or.inr (Or.inr ((hmem q).mp ?_)))
+        (fun q _ h => Or.inr h)
+      rcases hq with h | h
+      · rw [h]; exact List.mem_cons_self
+      · exact List.mem_cons_of_mem _ h
+
+/-- the gates of `compile_or` (one or two `CX` and an `MCX` for at most two distinct argument qubits, the
+chain of binary ors beyond), then the common tail -/
+theorem orGates_cl {n : Nat} {erets es : List Nat} {dest : Option Nat} {e : BExp} {d a : Nat}
     {s s' : CState}
     (h : StateT.run (
         if es.length ≤ 2 then do
@@ -618,35 +710,34 @@ theorem orGates_cl {n : Nat} {es : List Nat} {dest : Option Nat} {e : BExp} {d a
                   pure d
                 else pure d
         else do
-          xAll es
-          mcx es d
-          xAll es
-          xGate d
+          orWide d erets es
           markAll es
           if dest.isNone = true then do
               expqSet e d
               pure d
             else pure d : M Nat) s = .ok (a, s'))
-    (hle : es.length ≤ 2) (hd : n ≤ d) :
+    (hf : s.qc.free = []) (hk : s.qc.kept = []) (hn : n ≤ s.qc.numQubits) (hd : n ≤ d) :
     ∃ t, a = d ∧ Cl n (· ∈ es) (· = d) s t ∧ Cl n NoP NoP t s' ∧ (∀ w ∈ es, w ∈ t.qc.anc → w ∈ s'.qc.marked) := by
-  rcases run_ite_ok.mp h with ⟨_, h⟩ | ⟨hn, _⟩
+  rcases run_ite_ok.mp h with ⟨_, h⟩ | ⟨_, h⟩
   · obtain ⟨u1, s1, hcx, h1⟩ := run_bind_ok.mp h
     have c1 := cxAll_cl (n := n) es hcx hd
     rcases run_ite_ok.mp h1 with ⟨_, h1⟩ | ⟨_, h1⟩
     · obtain ⟨u2, s2, hm, h2⟩ := run_bind_ok.mp h1
       have c2 := mcx_cl (n := n) hm hd
-      obtain ⟨rfl, clf, hmk⟩ := finish_cl (n := n) (Pc := NoP) (Pt := NoP) h2
+      obtain ⟨rfl, clf, hmk⟩ := finish_cl (n := n) (Pc := NoP) (Pt := NoP) h2 (c2.kept.trans (c1.kept.trans hk))
       exact ⟨s2, rfl, Cl.trans c1 c2 (fun q h => Or.inr (Or.inr h)) (fun q _ h => Or.inr h)
         (fun q h => Or.inr (Or.inr h)) (fun q _ h => Or.inr h), clf, hmk⟩
-    · obtain ⟨rfl, clf, hmk⟩ := finish_cl (n := n) (Pc := NoP) (Pt := NoP) h1
+    · obtain ⟨rfl, clf, hmk⟩ := finish_cl (n := n) (Pc := NoP) (Pt := NoP) h1 (c1.kept.trans hk)
       exact ⟨s1, rfl, c1, clf, hmk⟩
-  · exact absurd hle hn
+  · obtain ⟨u1, s1, hw, h1⟩ := run_bind_ok.mp h
+    have c1 := orWide_cl (n := n) hw hf hk hn hd
+    obtain ⟨rfl, clf, hmk⟩ := finish_cl (n := n) (Pc := NoP) (Pt := NoP) h1 (c1.kept.trans hk)
+    exact ⟨s1, rfl, c1, clf, hmk⟩
 
 theorem exprCl_or {inputs : List String} {ρ : Env} {σ0 : FState} {r : String} (amb : Amb inputs σ0 r)
     {args : List BExp} (hov : overInputsList inputs args = true) (hdis : Distinct (compSubsList args))
-    (hlen : args.length ≤ 2)
     (ih : ArgsCl inputs ρ σ0 r args) : ExprCl inputs ρ σ0 r (.or args) := by
-  intro dest sym a s s' h hp hcache hd hsym _
+  intro dest sym a s s' h hp hk hcache hd hsym _
   unfold compileExpr at h
   dsimp only at h
   obtain ⟨r0, s1, hget, h1⟩ := run_bind_ok.mp h
@@ -657,51 +748,44 @@ theorem exprCl_or {inputs : List String} {ρ : Env} {σ0 : FState} {r : String} 
     fun p hp' c hc => hcache p hp' c (by simp [compSubs, hc])
   obtain ⟨st1, _⟩ := argsSpec (B := (· = r)) args hargs hp.good
   obtain ⟨sem1, hvals, hb⟩ := argsSem (ρ := ρ) amb args hov hdis hargs hp hc1
-  obtain ⟨cl1, hbc⟩ := ih hargs hp hc1
+  obtain ⟨cl1, hbc⟩ := ih hargs hp hk hc1
+  have hk2 : s2.qc.kept = [] := cl1.kept.trans hk
   have hp2 : Pre inputs ρ σ0 s2 := hp.next amb st1 sem1 (by intro q hq; exact hq.elim)
-  have hel : erets.length = args.length := by
-    have := congrArg List.length hvals
-    simpa using this
   have body : ∀ {d : Nat} {s3 : CState} {k : M Nat} (es : List Nat),
       es = sortNat (if erets.contains d = true then erets.erase d else erets).eraseDups →
       (destOr dest).run s2 = .ok (d, s3) →
       StateT.run (if erets.contains d = true then do event "destAmongArgs"; k else k) s3 = .ok (a, s') →
-      (∀ {t : CState}, k.run t = .ok (a, s') → es.length ≤ 2 → inputs.length ≤ d →
-        ∃ t', a = d ∧ Cl inputs.length (· ∈ es) (· = d) t t' ∧ Cl inputs.length NoP NoP t' s' ∧
+      (k.run s3 = .ok (a, s') → s3.qc.free = [] → s3.qc.kept = [] → inputs.length ≤ s3.qc.numQubits →
+        inputs.length ≤ d →
+        ∃ t', a = d ∧ Cl inputs.length (· ∈ es) (· = d) s3 t' ∧ Cl inputs.length NoP NoP t' s' ∧
           (∀ w ∈ es, w ∈ t'.qc.anc → w ∈ s'.qc.marked)) →
       Cl inputs.length NoP (· = a) s1 s' ∧
       (dest = none → (a < inputs.length ∧ isSym (BExp.or args) = true) ∨ a ∈ s'.qc.anc) := by
-    intro d s3 k es hes hdest h3 hk
-    obtain ⟨_, _, _, hdn, _⟩ := dest_sem amb hp2 sem1.nq hd hb hdest
+    intro d s3 k es hes hdest h3 hk'
+    obtain ⟨hp3, _, _, hdn, _⟩ := dest_sem amb hp2 sem1.nq hd hb hdest
     obtain ⟨cld, hdge, hdanc⟩ := dest_cl (Pc := NoP) (Pt := NoP) hp2 hd hdest
     have hcd : ¬ (erets.contains d = true) := by simpa using hdn
     rw [if_neg hcd] at hes
-    have hes2 : es.length ≤ 2 := by
-      rw [hes]
-      unfold sortNat
-      rw [List.length_mergeSort]
-      have := length_eraseDups_le erets.length erets (Nat.le_refl _)
-      omega
     rcases run_ite_ok.mp h3 with ⟨hc, _⟩ | ⟨_, h3⟩
     · exact absurd hc hcd
-    · obtain ⟨t', had, clg, clf, hmk⟩ := hk h3 hes2 hdge
+    · obtain ⟨t', had, clg, clf, hmk⟩ := hk' h3 hp3.free (cld.kept.trans hk2) hp3.nin hdge
       exact ⟨andor_cl cl1 hbc cld clg clf hmk (fun q => by rw [hes]; exact mem_sortDedup) had,
         fun hn => Or.inr (by rw [had]; exact clf.anc _ (clg.anc _ (hdanc hn)))⟩
   cases dest with
   | some d0 =>
     dsimp only at h2
     obtain ⟨d, s3, hp0, h4⟩ := run_bind_ok.mp h2
-    exact body _ rfl hp0 h4 (fun hk hes hd' => orGates_cl hk hes hd')
+    exact body _ rfl hp0 h4 (fun hk' hf hkk hn hd' => orGates_cl hk' hf hkk hn hd')
   | none =>
     dsimp only at h2
     obtain ⟨d, s3, hf, h4⟩ := run_bind_ok.mp h2
-    exact body _ rfl hf h4 (fun hk hes hd' => orGates_cl hk hes hd')
+    exact body _ rfl hf h4 (fun hk' hf hkk hn hd' => orGates_cl hk' hf hkk hn hd')
 
 /-! ### `Xor` -/
 
 theorem xorCl_nil {inputs : List String} {ρ : Env} {σ0 : FState} {r : String} :
     XorCl inputs ρ σ0 r [] := by
-  intro d a s s' h _ _ _ _
+  intro d a s s' h _ _ _ _ _
   unfold compileXorArgs at h
   obtain ⟨rfl, rfl⟩ := run_pure_ok.mp h
   exact Cl.refl _
@@ -716,7 +800,7 @@ theorem xorStep_cl {inputs : List String} {ρ : Env} {σ0 : FState} {r : String}
           let d' ← compileExpr a (some d) none
           if d' != d then event "xorRepl"
           compileXorArgs as d' : M Nat) s = .ok (q, s'))
-    (hp : Pre inputs ρ σ0 s)
+    (hp : Pre inputs ρ σ0 s) (hk : s.qc.kept = [])
     (hcache : ∀ p ∈ s.expq, ∀ c ∈ compSubsList (a :: as), (p.1 == c) = false)
     (hd1 : inputs.length ≤ d) (hd2 : d < s.qc.numQubits) :
     Cl inputs.length NoP (· = d) s s' := by
@@ -728,13 +812,13 @@ theorem xorStep_cl {inputs : List String} {ρ : Env} {σ0 : FState} {r : String}
   have hss : isSym a = true → some d = none ∧ (none : Option String) = none := by
     intro hs; rw [hns] at hs; cases hs
   obtain ⟨hp1, _, sem1, hv1⟩ := expr_pre amb hov hda h1 hp hc1 hdd (by intro y hy; cases hy) hss
-  obtain ⟨cl1, _⟩ := iha (some d) none h1 hp hc1 hdd (by intro y hy; cases hy) hss
+  obtain ⟨cl1, _⟩ := iha (some d) none h1 hp hk hc1 hdd (by intro y hy; cases hy) hss
   have e' := hv1 d rfl
   subst e'
   dsimp only at h2
   rcases run_ite_ok.mp h2 with ⟨hc, _⟩ | ⟨_, h2⟩
   · simp at hc
-  · have cl2 := ihs d' h2 hp1 (cache_next hcache sem1 (fun _ h => h) hdis) hd1
+  · have cl2 := ihs d' h2 hp1 (cl1.kept.trans hk) (cache_next hcache sem1 (fun _ h => h) hdis) hd1
       (Nat.lt_of_lt_of_le hd2 sem1.nq)
     exact Cl.trans cl1 cl2 (fun _ h => h.elim) (fun q _ h => Or.inr h) (fun _ h => h.elim) (fun q _ h => Or.inr h)
 
@@ -749,7 +833,7 @@ theorem xorNotStep_cl {inputs : List String} {ρ : Env} {σ0 : FState} {r : Stri
           if d' != d then event "xorRepl"
           xGate d'
           compileXorArgs as d' : M Nat) s = .ok (q, s'))
-    (hp : Pre inputs ρ σ0 s)
+    (hp : Pre inputs ρ σ0 s) (hk : s.qc.kept = [])
     (hcache : ∀ p ∈ s.expq, ∀ c ∈ compSubsList (.not inner :: as), (p.1 == c) = false)
     (hd1 : inputs.length ≤ d) (hd2 : d < s.qc.numQubits) :
     Cl inputs.length NoP (· = d) s s' := by
@@ -761,7 +845,7 @@ theorem xorNotStep_cl {inputs : List String} {ρ : Env} {σ0 : FState} {r : Stri
   have hss : isSym inner = true → some d = none ∧ (none : Option String) = none := by
     intro hs; rw [hns] at hs; cases hs
   obtain ⟨hp1, _, sem1, hv1⟩ := expr_pre amb hov hda h1 hp hc1 hdd (by intro y hy; cases hy) hss
-  obtain ⟨cl1, _⟩ := iha (some d) none h1 hp hc1 hdd (by intro y hy; cases hy) hss
+  obtain ⟨cl1, _⟩ := iha (some d) none h1 hp hk hc1 hdd (by intro y hy; cases hy) hss
   have e' := hv1 d rfl
   subst e'
   dsimp only at h2
@@ -775,7 +859,7 @@ theorem xorNotStep_cl {inputs : List String} {ρ : Env} {σ0 : FState} {r : Stri
       (by intro q hq; rw [hq]; exact hd1)
     have sem12 := sem1.trans' semx
     have clx := xGate_cl (n := inputs.length) hx hd1
-    have cl2 := ihs d' h3 hp2
+    have cl2 := ihs d' h3 hp2 (clx.kept.trans (cl1.kept.trans hk))
       (cache_next hcache sem12 (by
         rintro c (h | h)
         · simp [compSubs, show c ∈ compSubs inner from h]
@@ -791,7 +875,7 @@ theorem xorCl_cons {inputs : List String} {ρ : Env} {σ0 : FState} {r : String}
     (ihs : XorCl inputs ρ σ0 r as)
     (hdis : ∀ x ∈ compSubs a, ∀ y ∈ compSubsList as, (x == y) = false) :
     XorCl inputs ρ σ0 r (a :: as) := by
-  intro d q s s' h hp hcache hd1 hd2
+  intro d q s s' h hp hk hcache hd1 hd2
   have hovi := overInputs_strip hov
   have hdai := distinct_strip hda
   cases a with
@@ -816,7 +900,7 @@ theorem xorCl_cons {inputs : List String} {ρ : Env} {σ0 : FState} {r : String}
         (cx_ok (B := (· = r)) hcx hp.good (Nat.lt_of_lt_of_le hil hp.nin) hd2) semc
         (by intro q hq; rw [hq]; exact hd1)
       have clc := cx_cl (n := inputs.length) hcx hd1
-      have cl2 := ihs d h2 hp2
+      have cl2 := ihs d h2 hp2 (clc.kept.trans hk)
         (cache_next hcache semc (fun _ h => h.elim) hdis) hd1 (Nat.lt_of_lt_of_le hd2 semc.nq)
       refine Cl.trans clc cl2 ?_ (fun q _ h => Or.inr h) (fun _ h => h.elim) (fun q _ h => Or.inr h)
       intro q hq
@@ -827,27 +911,27 @@ theorem xorCl_cons {inputs : List String} {ρ : Env} {σ0 : FState} {r : String}
     cases inner with
     | sym n =>
       unfold compileXorArgs at h
-      exact xorStep_cl amb hov hda iha ihs rfl hdis h hp hcache hd1 hd2
+      exact xorStep_cl amb hov hda iha ihs rfl hdis h hp hk hcache hd1 hd2
     | ff => simp [overInputs] at hov
     | tt => simp [overInputs] at hov
-    | xor l => unfold compileXorArgs at h; exact xorNotStep_cl amb hovi hdai ihi ihs rfl hdis h hp hcache hd1 hd2
-    | not l => unfold compileXorArgs at h; exact xorNotStep_cl amb hovi hdai ihi ihs rfl hdis h hp hcache hd1 hd2
-    | and l => unfold compileXorArgs at h; exact xorNotStep_cl amb hovi hdai ihi ihs rfl hdis h hp hcache hd1 hd2
-    | or l => unfold compileXorArgs at h; exact xorNotStep_cl amb hovi hdai ihi ihs rfl hdis h hp hcache hd1 hd2
+    | xor l => unfold compileXorArgs at h; exact xorNotStep_cl amb hovi hdai ihi ihs rfl hdis h hp hk hcache hd1 hd2
+    | not l => unfold compileXorArgs at h; exact xorNotStep_cl amb hovi hdai ihi ihs rfl hdis h hp hk hcache hd1 hd2
+    | and l => unfold compileXorArgs at h; exact xorNotStep_cl amb hovi hdai ihi ihs rfl hdis h hp hk hcache hd1 hd2
+    | or l => unfold compileXorArgs at h; exact xorNotStep_cl amb hovi hdai ihi ihs rfl hdis h hp hk hcache hd1 hd2
     | ite x y z => simp [overInputs] at hov
     | imp x y => simp [overInputs] at hov
   | ff => simp [overInputs] at hov
   | tt => simp [overInputs] at hov
-  | xor l => unfold compileXorArgs at h; exact xorStep_cl amb hov hda iha ihs rfl hdis h hp hcache hd1 hd2
-  | and l => unfold compileXorArgs at h; exact xorStep_cl amb hov hda iha ihs rfl hdis h hp hcache hd1 hd2
-  | or l => unfold compileXorArgs at h; exact xorStep_cl amb hov hda iha ihs rfl hdis h hp hcache hd1 hd2
+  | xor l => unfold compileXorArgs at h; exact xorStep_cl amb hov hda iha ihs rfl hdis h hp hk hcache hd1 hd2
+  | and l => unfold compileXorArgs at h; exact xorStep_cl amb hov hda iha ihs rfl hdis h hp hk hcache hd1 hd2
+  | or l => unfold compileXorArgs at h; exact xorStep_cl amb hov hda iha ihs rfl hdis h hp hk hcache hd1 hd2
   | ite x y z => simp [overInputs] at hov
   | imp x y => simp [overInputs] at hov
 
 theorem exprCl_xor {inputs : List String} {ρ : Env} {σ0 : FState} {r : String} (amb : Amb inputs σ0 r)
     {args : List BExp} (hov : overInputsList inputs args = true) (hdis : Distinct (compSubsList args))
     (ih : XorCl inputs ρ σ0 r args) : ExprCl inputs ρ σ0 r (.xor args) := by
-  intro dest sym a s s' h hp hcache hd hsym _
+  intro dest sym a s s' h hp hk hcache hd hsym _
   unfold compileExpr at h
   dsimp only at h
   obtain ⟨r0, s1, hget, h1⟩ := run_bind_ok.mp h
@@ -864,7 +948,7 @@ theorem exprCl_xor {inputs : List String} {ρ : Env} {σ0 : FState} {r : String}
     obtain ⟨rfl, rfl⟩ := run_pure_ok.mp h3
     obtain ⟨hd1, hd2⟩ := hd d0 rfl
     obtain ⟨e', _, _⟩ := xorSem (ρ := ρ) amb args hov hdis d0 hx hp hsub hd1 hd2
-    have cl1 := ih d0 hx hp hsub hd1 hd2
+    have cl1 := ih d0 hx hp hk hsub hd1 hd2
     rw [← e'] at cl1
     exact ⟨cl1, fun hn => by cases hn⟩
   | none =>
@@ -885,7 +969,7 @@ theorem exprCl_xor {inputs : List String} {ρ : Env} {σ0 : FState} {r : String}
       · rw [← e0]; exact hsub p0 hp0 c hc
       · exact hk.elim
     obtain ⟨e', _, _⟩ := xorSem (ρ := ρ) amb args hov hdis d hx hp2 hsub2 hd1 (by omega)
-    have cl1 := ih d hx hp2 hsub2 hd1 (by omega)
+    have cl1 := ih d hx hp2 (clf.kept.trans hk) hsub2 hd1 (by omega)
     rw [← e'] at cl1
     obtain ⟨e4, _⟩ := expqSet_run hset
     have cl1' := cl1.of_qc (t := s2) (t' := s') rfl e4
@@ -896,86 +980,78 @@ theorem exprCl_xor {inputs : List String} {ρ : Env} {σ0 : FState} {r : String}
 /-! ### the induction -/
 
 mutual
-/-- **shape of the gates `compileExpr` emits** on the fragment without De Morgan `Or` -/
+/-- **shape of the gates `compileExpr` emits** on the tree-like fragment (any `Or` arity) -/
 theorem exprCl {inputs : List String} {ρ : Env} {σ0 : FState} {r : String} (amb : Amb inputs σ0 r) :
-    ∀ e : BExp, overInputs inputs e = true → Distinct (compSubs e) → smallOr e = true →
-      ExprCl inputs ρ σ0 r e
-  | .sym n => fun hov _ _ => exprCl_sym n (by simpa [overInputs] using hov)
-  | .not a => fun hov hd hs =>
+    ∀ e : BExp, overInputs inputs e = true → Distinct (compSubs e) → ExprCl inputs ρ σ0 r e
+  | .sym n => fun hov _ => exprCl_sym n (by simpa [overInputs] using hov)
+  | .not a => fun hov hd =>
     have hov' : overInputs inputs a = true := by simpa [overInputs] using hov
     have hd' : Distinct (compSubs a) := distinct_tail (by simpa [compSubs] using hd)
-    exprCl_not amb hov' hd' (exprCl amb a hov' hd' (by simpa [smallOr] using hs))
-  | .and args => fun hov hd hs =>
+    exprCl_not amb hov' hd' (exprCl amb a hov' hd')
+  | .and args => fun hov hd =>
     have hov' : overInputsList inputs args = true := by simpa [overInputs] using hov
     have hd' : Distinct (compSubsList args) := distinct_cons_list (by simpa [compSubs] using hd)
-    exprCl_and amb hov' hd' (argsCl amb args hov' hd' (by simpa [smallOr] using hs))
-  | .or args => fun hov hd hs =>
+    exprCl_and amb hov' hd' (argsCl amb args hov' hd')
+  | .or args => fun hov hd =>
     have hov' : overInputsList inputs args = true := by simpa [overInputs] using hov
     have hd' : Distinct (compSubsList args) := distinct_cons_list (by simpa [compSubs] using hd)
-    have hs' : args.length ≤ 2 ∧ smallOrList args = true := by simpa [smallOr] using hs
-    exprCl_or amb hov' hd' hs'.1 (argsCl amb args hov' hd' hs'.2)
-  | .xor args => fun hov hd hs =>
+    exprCl_or amb hov' hd' (argsCl amb args hov' hd')
+  | .xor args => fun hov hd =>
     have hov' : overInputsList inputs args = true := by simpa [overInputs] using hov
     have hd' : Distinct (compSubsList args) := distinct_cons_list (by simpa [compSubs] using hd)
-    exprCl_xor amb hov' hd' (xorCl amb args hov' hd' (by simpa [smallOr] using hs))
-  | .ff => fun hov _ _ => by simp [overInputs] at hov
-  | .tt => fun hov _ _ => by simp [overInputs] at hov
-  | .ite _ _ _ => fun hov _ _ => by simp [overInputs] at hov
-  | .imp _ _ => fun hov _ _ => by simp [overInputs] at hov
+    exprCl_xor amb hov' hd' (xorCl amb args hov' hd')
+  | .ff => fun hov _ => by simp [overInputs] at hov
+  | .tt => fun hov _ => by simp [overInputs] at hov
+  | .ite _ _ _ => fun hov _ => by simp [overInputs] at hov
+  | .imp _ _ => fun hov _ => by simp [overInputs] at hov
 theorem argsCl {inputs : List String} {ρ : Env} {σ0 : FState} {r : String} (amb : Amb inputs σ0 r) :
     ∀ as : List BExp, overInputsList inputs as = true → Distinct (compSubsList as) →
-      smallOrList as = true → ArgsCl inputs ρ σ0 r as
-  | [] => fun _ _ _ => argsCl_nil (r := r)
-  | a :: as => fun hov hd hs =>
+      ArgsCl inputs ρ σ0 r as
+  | [] => fun _ _ => argsCl_nil (r := r)
+  | a :: as => fun hov hd =>
     have hov' : overInputs inputs a = true ∧ overInputsList inputs as = true := by
       simpa [overInputsList] using hov
-    have hso : smallOr a = true ∧ smallOrList as = true := by simpa [smallOrList] using hs
     have hds := distinct_split hd
-    argsCl_cons amb hov'.1 hds.1 (exprCl amb a hov'.1 hds.1 hso.1) (argsCl amb as hov'.2 hds.2.1 hso.2) hds.2.2
+    argsCl_cons amb hov'.1 hds.1 (exprCl amb a hov'.1 hds.1) (argsCl amb as hov'.2 hds.2.1) hds.2.2
 theorem xorCl {inputs : List String} {ρ : Env} {σ0 : FState} {r : String} (amb : Amb inputs σ0 r) :
     ∀ as : List BExp, overInputsList inputs as = true → Distinct (compSubsList as) →
-      smallOrList as = true → XorCl inputs ρ σ0 r as
-  | [] => fun _ _ _ => xorCl_nil (r := r)
-  | .not i :: as => fun hov hd hs =>
+      XorCl inputs ρ σ0 r as
+  | [] => fun _ _ => xorCl_nil (r := r)
+  | .not i :: as => fun hov hd =>
     have hov' : overInputs inputs (.not i) = true ∧ overInputsList inputs as = true := by
       simpa [overInputsList] using hov
-    have hso : smallOr (.not i) = true ∧ smallOrList as = true := by simpa [smallOrList] using hs
     have hds := distinct_split hd
-    xorCl_cons amb hov'.1 hds.1 (exprCl amb (.not i) hov'.1 hds.1 hso.1)
-      (exprCl amb i (overInputs_strip hov'.1) (distinct_strip hds.1) (by simpa [smallOr] using hso.1))
-      (xorCl amb as hov'.2 hds.2.1 hso.2) hds.2.2
-  | .sym n :: as => fun hov hd hs =>
+    xorCl_cons amb hov'.1 hds.1 (exprCl amb (.not i) hov'.1 hds.1)
+      (exprCl amb i (overInputs_strip hov'.1) (distinct_strip hds.1))
+      (xorCl amb as hov'.2 hds.2.1) hds.2.2
+  | .sym n :: as => fun hov hd =>
     have hov' : overInputs inputs (.sym n) = true ∧ overInputsList inputs as = true := by
       simpa [overInputsList] using hov
-    have hso : smallOr (.sym n) = true ∧ smallOrList as = true := by simpa [smallOrList] using hs
     have hds := distinct_split hd
-    xorCl_cons amb hov'.1 hds.1 (exprCl amb (.sym n) hov'.1 hds.1 hso.1) (exprCl amb (.sym n) hov'.1 hds.1 hso.1)
-      (xorCl amb as hov'.2 hds.2.1 hso.2) hds.2.2
-  | .xor l :: as => fun hov hd hs =>
+    xorCl_cons amb hov'.1 hds.1 (exprCl amb (.sym n) hov'.1 hds.1) (exprCl amb (.sym n) hov'.1 hds.1)
+      (xorCl amb as hov'.2 hds.2.1) hds.2.2
+  | .xor l :: as => fun hov hd =>
     have hov' : overInputs inputs (.xor l) = true ∧ overInputsList inputs as = true := by
       simpa [overInputsList] using hov
-    have hso : smallOr (.xor l) = true ∧ smallOrList as = true := by simpa [smallOrList] using hs
     have hds := distinct_split hd
-    xorCl_cons amb hov'.1 hds.1 (exprCl amb (.xor l) hov'.1 hds.1 hso.1) (exprCl amb (.xor l) hov'.1 hds.1 hso.1)
-      (xorCl amb as hov'.2 hds.2.1 hso.2) hds.2.2
-  | .and l :: as => fun hov hd hs =>
+    xorCl_cons amb hov'.1 hds.1 (exprCl amb (.xor l) hov'.1 hds.1) (exprCl amb (.xor l) hov'.1 hds.1)
+      (xorCl amb as hov'.2 hds.2.1) hds.2.2
+  | .and l :: as => fun hov hd =>
     have hov' : overInputs inputs (.and l) = true ∧ overInputsList inputs as = true := by
       simpa [overInputsList] using hov
-    have hso : smallOr (.and l) = true ∧ smallOrList as = true := by simpa [smallOrList] using hs
     have hds := distinct_split hd
-    xorCl_cons amb hov'.1 hds.1 (exprCl amb (.and l) hov'.1 hds.1 hso.1) (exprCl amb (.and l) hov'.1 hds.1 hso.1)
-      (xorCl amb as hov'.2 hds.2.1 hso.2) hds.2.2
-  | .or l :: as => fun hov hd hs =>
+    xorCl_cons amb hov'.1 hds.1 (exprCl amb (.and l) hov'.1 hds.1) (exprCl amb (.and l) hov'.1 hds.1)
+      (xorCl amb as hov'.2 hds.2.1) hds.2.2
+  | .or l :: as => fun hov hd =>
     have hov' : overInputs inputs (.or l) = true ∧ overInputsList inputs as = true := by
       simpa [overInputsList] using hov
-    have hso : smallOr (.or l) = true ∧ smallOrList as = true := by simpa [smallOrList] using hs
     have hds := distinct_split hd
-    xorCl_cons amb hov'.1 hds.1 (exprCl amb (.or l) hov'.1 hds.1 hso.1) (exprCl amb (.or l) hov'.1 hds.1 hso.1)
-      (xorCl amb as hov'.2 hds.2.1 hso.2) hds.2.2
-  | .ff :: as => fun hov _ _ => by simp [overInputsList, overInputs] at hov
-  | .tt :: as => fun hov _ _ => by simp [overInputsList, overInputs] at hov
-  | .ite _ _ _ :: as => fun hov _ _ => by simp [overInputsList, overInputs] at hov
-  | .imp _ _ :: as => fun hov _ _ => by simp [overInputsList, overInputs] at hov
+    xorCl_cons amb hov'.1 hds.1 (exprCl amb (.or l) hov'.1 hds.1) (exprCl amb (.or l) hov'.1 hds.1)
+      (xorCl amb as hov'.2 hds.2.1) hds.2.2
+  | .ff :: as => fun hov _ => by simp [overInputsList, overInputs] at hov
+  | .tt :: as => fun hov _ => by simp [overInputsList, overInputs] at hov
+  | .ite _ _ _ :: as => fun hov _ => by simp [overInputsList, overInputs] at hov
+  | .imp _ _ :: as => fun hov _ => by simp [overInputsList, overInputs] at hov
 end
 
 /-! ### the statement loop for one definition, and `compile` with `uncompute = true` -/
@@ -1031,12 +1107,12 @@ theorem mem_removeIdentitiesList {gs : List AGate} {g : AGate} (h : g ∈ remove
 
 /-- the top-level expression of the single definition, compiled with `sym = some r` -/
 theorem topExpr_cl {inputs : List String} {ρ : Env} {σ0 : FState} {r : String} (amb : Amb inputs σ0 r)
-    {e : BExp} (hov : overInputs inputs e = true) (htl : treeLike e = true) (hso : smallOr e = true)
+    {e : BExp} (hov : overInputs inputs e = true) (htl : treeLike e = true)
     {iret : Nat} {s t : CState}
     (h : (compileExpr e none (some r)).run s = .ok (iret, t)) (hp : Pre inputs ρ σ0 s)
-    (hex : s.expq = []) (hinp : s.inputs = inputs) :
+    (hk : s.qc.kept = []) (hex : s.expq = []) (hinp : s.inputs = inputs) :
     Cl inputs.length NoP (· = iret) s t ∧
-      ((isSym e = false ∨ r.startsWith "_ret" = true) → inputs.length ≤ iret) := by
+      ((isSym e = false ∨ r.startsWith "_ret" = true) → inputs.length ≤ iret) ∧ t.qc.free = [] := by
   cases hs : isSym e with
   | true =>
     cases e with
@@ -1068,9 +1144,10 @@ theorem topExpr_cl {inputs : List String} {ρ : Env} {σ0 : FState} {r : String}
           subst hqi
           have hge : inputs.length ≤ iret := by rw [ha0]; exact hp.nin
           have cla : Cl inputs.length NoP NoP s s3 := by
-            rw [hs2]; exact Cl.quiet rfl rfl (fun _ h => h) (fun _ h => h)
+            rw [hs2]; exact Cl.quiet rfl rfl (fun _ h => h) (fun _ h => h) rfl
           have clc := cx_cl (n := inputs.length) hcx hge
-          refine ⟨Cl.trans cla clc (fun _ h => h.elim) (fun _ _ h => h.elim) ?_ (fun q _ h => Or.inr h), fun _ => hge⟩
+          refine ⟨Cl.trans cla clc (fun _ h => h.elim) (fun _ _ h => h.elim) ?_ (fun q _ h => Or.inr h), fun _ => hge,
+            by rw [(cx_run hcx).free, hs2]; exact hp.free⟩
           intro c hc
           have : c = q := by simpa using hc
           subst this
@@ -1084,7 +1161,7 @@ theorem topExpr_cl {inputs : List String} {ρ : Env} {σ0 : FState} {r : String}
         split at h
         · obtain ⟨hiret, hst⟩ := run_pure_ok.mp h
           subst hst
-          refine ⟨Cl.refl _, fun hc => ?_⟩
+          refine ⟨Cl.refl _, fun hc => ?_, hp.free⟩
           rcases hc with hc | hc
           · simp at hc
           · exact absurd hc hret
@@ -1098,9 +1175,9 @@ theorem topExpr_cl {inputs : List String} {ρ : Env} {σ0 : FState} {r : String}
       intro hs'; rw [hs] at hs'; cases hs'
     obtain ⟨hpt, _, _, _⟩ := expr_pre (ρ := ρ) amb hov hdis h hp hc0 (by intro d hd; cases hd)
       (by intro y hy; cases hy; rfl) hss
-    obtain ⟨cl, hres⟩ := exprCl (ρ := ρ) amb e hov hdis hso none (some r) h hp hc0 (by intro d hd; cases hd)
+    obtain ⟨cl, hres⟩ := exprCl (ρ := ρ) amb e hov hdis none (some r) h hp hk hc0 (by intro d hd; cases hd)
       (by intro y hy; cases hy; rfl) hss
-    refine ⟨cl, fun _ => ?_⟩
+    refine ⟨cl, fun _ => ?_, hpt.free⟩
     rcases hres rfl with h' | h'
     · rw [hs] at h'; cases h'.2
     · exact hpt.sge.1 _ h'
@@ -1112,7 +1189,7 @@ theorem mem_of_map_gcore {U L : List AGate} (h : U.map gcore = L.map gcore) {g :
   obtain ⟨g', hg', e⟩ := List.mem_map.mp hm
   exact ⟨g', hg', congrArg Prod.fst e, congrArg Prod.snd e⟩
 
-/-- **one definition `r = e` of the fragment without De Morgan `Or`, `uncompute = true`, `r` requested**:
+/-- **one definition `r = e` of the tree-like fragment (any `Or` arity), `uncompute = true`, `r` requested**:
 after every successful run of `compile`, on every input every qubit other than the one mapped to `r`
 is back to its initial value; that qubit is not an argument qubit unless `e` is a bare symbol aliased
 under a non-return name; it is never a control; no gate targets an argument qubit -/
@@ -1121,7 +1198,7 @@ theorem compile_single_clean {inputs : List String} {r : String} {e : BExp} {ret
     (h : (compile inputs [(r, e)] (some rets) unc).run { choices := cs } = .ok ((), s))
     (hunc : unc = true) (hr : r ∈ rets)
     (hnd : inputs.Nodup) (hfresh : ∀ n ∈ inputs, n ≠ r ∧ reservedName n = false)
-    (hov : overInputs inputs e = true) (htl : treeLike e = true) (hso : smallOr e = true)
+    (hov : overInputs inputs e = true) (htl : treeLike e = true)
     (x : List Bool) (hx : x.length = inputs.length) :
     ∃ q, dictGet? s.qc.qmap r = some q ∧
       (∀ p, p ≠ q →
@@ -1136,11 +1213,11 @@ theorem compile_single_clean {inputs : List String} {r : String} {e : BExp} {ret
   have hg0 : Good { choices := cs, inputs := inputs } := good_init cs inputs
   obtain ⟨u1, s1, hin, h2⟩ := run_bind_ok.mp h1
   obtain ⟨st1, hn1, _, hpos⟩ := addInputs_ok inputs hin hg0
-  obtain ⟨ha1, hf1, hm1⟩ := addInputs_scratch inputs hin
+  obtain ⟨ha1, hf1, hm1, hk1⟩ := addInputs_scratch inputs hin
   obtain ⟨hga1, hex1, hinp1⟩ := addInputs_quiet inputs hin
   have hgc1 := addInputs_gc inputs hin
   obtain ⟨u2, s2, hdefs, h3⟩ := run_bind_ok.mp h2
-  obtain ⟨st2, _⟩ := compileDefs_ok (B := (· = r)) [(r, e)] hdefs st1.good
+  obtain ⟨st2, _⟩ := compileDefs_ok (B := (· = r)) (retBits := some rets) (doUnc := unc) [(r, e)] hdefs st1.good
     (fun p hp => by simp at hp; rw [hp])
   have hg2 := st2.good
   obtain ⟨u3, s3, hrem, h4⟩ := run_bind_ok.mp h3
@@ -1169,10 +1246,11 @@ theorem compile_single_clean {inputs : List String} {r : String} {e : BExp} {ret
     have : x[q]? = none := by simp; omega
     simp [List.getD_eq_getElem?_getD, this]
   have hp1 : Pre inputs (envOf (inputs.zip x)) σ0 s1 := by
-    refine ⟨st1.good, hf1, Nat.le_of_eq hn1'.symm, ⟨?_, ?_, ?_⟩, ?_, ?_⟩
+    refine ⟨st1.good, hf1, Nat.le_of_eq hn1'.symm, ⟨?_, ?_, ?_, ?_⟩, ?_, ?_⟩
     · rw [ha1]; intro a ha; cases ha
     · rw [hf1]; intro a ha; cases ha
     · rw [hm1]; intro a ha; cases ha
+    · rw [hk1]; intro a ha; cases ha
     · intro i n hi
       have := hpos hnd (fun m hm => (hfresh m hm).2) i n hi
       simpa using this
@@ -1183,10 +1261,16 @@ theorem compile_single_clean {inputs : List String} {r : String} {e : BExp} {ret
       rw [initState_getD, envOf_zip hnd hi]
   -- the statement loop
   unfold compileDefs at hdefs
-  dsimp only at hdefs
   obtain ⟨iret, t1, he, k1⟩ := run_bind_ok.mp hdefs
-  obtain ⟨u4, t2, hset, k2⟩ := run_bind_ok.mp k1
+  obtain ⟨u40, t1', hrs, k1'⟩ := run_bind_ok.mp k1
+  obtain ⟨u4, t2, hset, k2⟩ := run_bind_ok.mp k1'
   obtain ⟨u5, t3, hmap, k3⟩ := run_bind_ok.mp k2
+  -- the defined name is a requested return bit: ancillas are released inline
+  have hinl : inlineUncompute (some rets) unc r = true := by
+    unfold inlineUncompute
+    rw [hunc]
+    simpa using hr
+  rw [if_pos hinl] at k3
   obtain ⟨uncl, t4, hunr, k4⟩ := run_bind_ok.mp k3
   obtain ⟨u6, t5, hrm, k5⟩ := run_bind_ok.mp k4
   unfold compileDefs at k5
@@ -1194,13 +1278,16 @@ theorem compile_single_clean {inputs : List String} {r : String} {e : BExp} {ret
   obtain ⟨q1, hlt⟩ := exprSpec (B := (· = r)) e none (some r) he st1.good (by intro d hd; cases hd)
     (by intro y hy; cases hy; rfl)
   obtain ⟨_, hnm⟩ := topExpr_sem (ρ := envOf (inputs.zip x)) amb hov htl he hp1 hex1 hm1 hinp1
-  obtain ⟨cl0, hge⟩ := topExpr_cl (ρ := envOf (inputs.zip x)) amb hov htl hso he hp1 hex1 hinp1
-  have q2 : Step (· = r) t1 t2 := expqSet_ok hset q1.good hlt
-  obtain ⟨hqc2, _⟩ := expqSet_run hset
-  obtain ⟨q3, hkey⟩ := mapQubit_ok (B := (· = r)) hmap q2.good (Nat.lt_of_lt_of_le hlt q2.nq_le) rfl
-    (by intro hp
-        have : r.startsWith "__" = true := by simpa using hp
-        simp [scratchName, this])
+  obtain ⟨cl0, hge, _⟩ := topExpr_cl (ρ := envOf (inputs.zip x)) amb hov htl he hp1 hk1 hex1 hinp1
+  have q1' : Step (· = r) t1 t1' := expqRemoveSymbol_ok hrs q1.good
+  have hqc1' : t1'.qc = t1.qc := by
+    unfold expqRemoveSymbol at hrs
+    have := run_modify_ok.mp hrs; subst this; rfl
+  have q2 : Step (· = r) t1' t2 := expqSet_ok hset q1'.good (Nat.lt_of_lt_of_le hlt q1'.nq_le)
+  obtain ⟨hqc2', _⟩ := expqSet_run hset
+  have hqc2 : t2.qc = t1.qc := hqc2'.trans hqc1'
+  obtain ⟨q3, hkey⟩ := mapQubit_ok (B := (· = r)) hmap q2.good
+    (Nat.lt_of_lt_of_le hlt (q1'.trans q2).nq_le) rfl (by intro hp; cases hp)
   obtain ⟨hg3, hm3, _⟩ := mapQubit_run hmap
   have hgc3 := mapQubit_gc hmap
   obtain ⟨_, _, _, e3, _⟩ := uncompute_gates hunr
@@ -1291,5 +1378,217 @@ theorem compile_single_clean {inputs : List String} {r : String} {e : BExp} {ret
     · obtain ⟨g', hg', _, ew, _⟩ := hUmem g hg
       have : g.target = g'.target := by unfold AGate.target; rw [ew]
       rw [this]; exact (hG g' hg').2.1
+
+/-! ### no return name requested: the definition's ancillas are kept, `uncompute_all` replays everything -/
+
+private theorem nop_false_of_mcxLike {c : GClass} (h : c.isMCXLike = true) : c.isNop = false := by
+  cases c <;> simp_all [GClass.isMCXLike, GClass.isNop]
+
+/-- `uncompute_all`'s loop replays (up to gate identity) every gate that is not a barrier and whose
+target is neither kept nor already free -/
+theorem uncomputeAllLoop_full {keep alreadyFree : List Nat} {off : Nat} :
+    ∀ (gs : List AGate) {u : Unit} {s s' : CState},
+    (uncomputeAllLoop keep alreadyFree off gs).run s = .ok (u, s') →
+    (∀ g ∈ gs, g.cls.isNop = false ∧ keep.contains g.target = false ∧ alreadyFree.contains g.target = false) →
+    ∃ extra, s'.qc.gates.toList = s.qc.gates.toList ++ extra ∧ extra.map gcore = gs.map gcore ∧
+      s'.qc.qmap = s.qc.qmap ∧ s'.qc.numQubits = s.qc.numQubits
+  | [], u, s, s', h, _ => by
+    unfold uncomputeAllLoop at h
+    obtain ⟨_, rfl⟩ := run_pure_ok.mp h
+    exact ⟨[], by simp, by simp, rfl, rfl⟩
+  | g :: gs, u, s, s', h, hall => by
+    unfold uncomputeAllLoop at h
+    dsimp only at h
+    obtain ⟨qc, s1, hq, h1⟩ := run_bind_ok.mp h
+    obtain ⟨rfl, rfl⟩ := getQC_run hq
+    obtain ⟨g1, g2, g3⟩ := hall g List.mem_cons_self
+    rcases run_ite_ok.mp h1 with ⟨hskip, _⟩ | ⟨_, h1⟩
+    · rw [g1, g2, g3] at hskip; simp at hskip
+    · have rest : ∀ {s2 : CState},
+          StateT.run (do
+            let b ← appendG g.cls g.wires (some (g.gid + off, g.gid))
+            if b = true then do
+              event "staleReplay"
+              uncomputeAllLoop keep alreadyFree off gs
+            else uncomputeAllLoop keep alreadyFree off gs : M Unit) s2 = .ok (u, s') →
+          s2.qc.gates = s1.qc.gates → s2.qc.qmap = s1.qc.qmap →
+          s2.qc.numQubits = s1.qc.numQubits →
+          ∃ extra, s'.qc.gates.toList = s1.qc.gates.toList ++ extra ∧
+            extra.map gcore = (g :: gs).map gcore ∧ s'.qc.qmap = s1.qc.qmap ∧
+            s'.qc.numQubits = s1.qc.numQubits := by
+        intro s2 h2 hg2 hq2 hn2
+        obtain ⟨b, s3, happ, h3⟩ := run_bind_ok.mp h2
+        have ha := appendG_run happ
+        obtain ⟨g', hgc, hgw, hgates, _⟩ := ha.gates
+        have fin : ∀ {s4 : CState}, s4.qc = s3.qc →
+            (uncomputeAllLoop keep alreadyFree off gs).run s4 = .ok (u, s') →
+            ∃ extra, s'.qc.gates.toList = s1.qc.gates.toList ++ extra ∧
+              extra.map gcore = (g :: gs).map gcore ∧ s'.qc.qmap = s1.qc.qmap ∧
+              s'.qc.numQubits = s1.qc.numQubits := by
+          intro s4 hq4 h4
+          obtain ⟨extra, e1, e2, e3, e4⟩ := uncomputeAllLoop_full gs h4
+            (fun x hx => hall x (List.mem_cons_of_mem _ hx))
+          refine ⟨g' :: extra, ?_, ?_, ?_, ?_⟩
+          · rw [e1, hq4, hgates, hg2]; simp
+          · have hg : gcore g' = gcore g := by unfold gcore; rw [hgc, hgw]
+            rw [List.map_cons, List.map_cons, e2, hg]
+          · rw [e3, hq4, ha.qmap, hq2]
+          · rw [e4, hq4, ha.nq, hn2]
+        rcases run_ite_ok.mp h3 with ⟨_, h3⟩ | ⟨_, h3⟩
+        · obtain ⟨u1, s4, hev, h4⟩ := run_bind_ok.mp h3
+          have := event_run hev; subst this
+          exact fin (s4 := { s3 with events := s3.events ++ ["staleReplay"] }) rfl h4
+        · exact fin rfl h3
+      rcases run_ite_ok.mp h1 with ⟨_, h1⟩ | ⟨_, h1⟩
+      · obtain ⟨u1, s2, hm, h2⟩ := run_bind_ok.mp h1
+        have := modQC_run hm; subst this
+        exact rest h2 rfl rfl rfl
+      · exact rest h1 rfl rfl rfl
+
+/-- `uncompute_all([])` from an empty free set appends (up to gate identity) the reversed gate list -/
+theorem uncomputeAll_full {u : Unit} {s s' : CState}
+    (h : (uncomputeAll []).run s = .ok (u, s')) (hf : s.qc.free = [])
+    (hn : ∀ g ∈ s.qc.gates.toList, g.cls.isNop = false) :
+    ∃ extra, s'.qc.gates.toList = s.qc.gates.toList ++ extra ∧
+      extra.map gcore = s.qc.gates.toList.reverse.map gcore ∧
+      s'.qc.qmap = s.qc.qmap ∧ s'.qc.numQubits = s.qc.numQubits := by
+  unfold uncomputeAll at h
+  obtain ⟨qc, s1, hq, h1⟩ := run_bind_ok.mp h
+  obtain ⟨rfl, rfl⟩ := getQC_run hq
+  obtain ⟨u1, s2, hloop, hm⟩ := run_bind_ok.mp h1
+  obtain ⟨extra, e1, e2, e3, e4⟩ := uncomputeAllLoop_full _ hloop (fun g hg =>
+    ⟨hn g (List.mem_reverse.mp hg), rfl, by rw [hf]; rfl⟩)
+  have := modQC_run hm; subst this
+  exact ⟨extra, e1, e2, e3, e4⟩
+
+theorem mapQubit_keeps_free {name : String} {index : Nat} {promote : Bool} {u : Unit} {s s' : CState}
+    (h : (mapQubit name index promote).run s = .ok (u, s')) : s'.qc.free = s.qc.free := by
+  unfold mapQubit at h
+  dsimp only at h
+  obtain ⟨qc, s1, hq, h⟩ := run_bind_ok.mp h
+  obtain ⟨rfl, rfl⟩ := getQC_run hq
+  split at h
+  · obtain ⟨u2, s3, hm1, hmatch⟩ := run_bind_ok.mp h
+    have := modQC_run hm1; subst this
+    split at hmatch
+    · obtain ⟨u3, s4, hm2, hm3⟩ := run_bind_ok.mp hmatch
+      have := modQC_run hm2; subst this
+      have := modQC_run hm3; subst this
+      rfl
+    · have := modQC_run hmatch; subst this
+      rfl
+  · have := modQC_run h; subst this
+    rfl
+
+/-- **one definition `r = e` of the tree-like fragment, `uncompute = true`, no return name requested**: the
+statement ends with `keep_ancillas` (nothing is released), the final `uncompute_all([])` replays every gate
+in reverse: after every successful run of `compile`, on every input every qubit is back to its initial value -/
+theorem compile_single_norets {inputs : List String} {r : String} {e : BExp}
+    {unc : Bool} {cs : List Nat} {s : CState}
+    (h : (compile inputs [(r, e)] (some []) unc).run { choices := cs } = .ok ((), s))
+    (hunc : unc = true)
+    (hnd : inputs.Nodup) (hfresh : ∀ n ∈ inputs, n ≠ r ∧ reservedName n = false)
+    (hov : overInputs inputs e = true) (htl : treeLike e = true)
+    (x : List Bool) (hx : x.length = inputs.length) :
+    ∀ p, (runClassical s.qc.gates.toList (initState x s.qc.numQubits)).getD p false =
+      (initState x s.qc.numQubits).getD p false := by
+  have hgs : Good s := (compile_ok h).1
+  unfold compile at h
+  obtain ⟨u0, s0, hmod, h1⟩ := run_bind_ok.mp h
+  have := run_modify_ok.mp hmod; subst this
+  have hg0 : Good { choices := cs, inputs := inputs } := good_init cs inputs
+  obtain ⟨u1, s1, hin, h2⟩ := run_bind_ok.mp h1
+  obtain ⟨st1, hn1, _, hpos⟩ := addInputs_ok inputs hin hg0
+  obtain ⟨ha1, hf1, hm1, hk1⟩ := addInputs_scratch inputs hin
+  obtain ⟨hga1, hex1, hinp1⟩ := addInputs_quiet inputs hin
+  obtain ⟨u2, s2, hdefs, h3⟩ := run_bind_ok.mp h2
+  obtain ⟨st2, _⟩ := compileDefs_ok (B := (· = r)) (retBits := some []) (doUnc := unc) [(r, e)] hdefs st1.good
+    (fun p hp => by simp at hp; rw [hp])
+  have hg2 := st2.good
+  obtain ⟨u3, s3, hrem, h4⟩ := run_bind_ok.mp h3
+  obtain ⟨hrg, hrq, hrn⟩ := removeIdentities_run hrem
+  have hrf := removeIdentities_free hrem
+  -- ambient facts for this input
+  have hn1' : s1.qc.numQubits = inputs.length := by rw [hn1]; simp
+  have hnin2 : inputs.length ≤ s2.qc.numQubits := by rw [← hn1']; exact st2.nq_le
+  let σ : BState := initState x s.qc.numQubits
+  let σ0 : FState := toF σ
+  have amb : Amb inputs σ0 r := by
+    refine ⟨hfresh, fun q hq => ?_⟩
+    show (initState x s.qc.numQubits).getD q false = false
+    rw [initState_getD]
+    have : x[q]? = none := by simp; omega
+    simp [List.getD_eq_getElem?_getD, this]
+  have hp1 : Pre inputs (envOf (inputs.zip x)) σ0 s1 := by
+    refine ⟨st1.good, hf1, Nat.le_of_eq hn1'.symm, ⟨?_, ?_, ?_, ?_⟩, ?_, ?_⟩
+    · rw [ha1]; intro a ha; cases ha
+    · rw [hf1]; intro a ha; cases ha
+    · rw [hm1]; intro a ha; cases ha
+    · rw [hk1]; intro a ha; cases ha
+    · intro i n hi
+      have := hpos hnd (fun m hm => (hfresh m hm).2) i n hi
+      simpa using this
+    · intro i n hi
+      show runF s1.qc.gates.toList σ0 i = _
+      rw [hga1]
+      show (initState x s.qc.numQubits).getD i false = _
+      rw [initState_getD, envOf_zip hnd hi]
+  -- the statement loop: nothing is released
+  unfold compileDefs at hdefs
+  obtain ⟨iret, t1, he, k1⟩ := run_bind_ok.mp hdefs
+  obtain ⟨u40, t1', hrs, k1'⟩ := run_bind_ok.mp k1
+  obtain ⟨u4, t2, hset, k2⟩ := run_bind_ok.mp k1'
+  obtain ⟨u5, t3, hmap, k3⟩ := run_bind_ok.mp k2
+  have hinl : ¬ (inlineUncompute (some []) unc r = true) := by
+    unfold inlineUncompute
+    rw [hunc]
+    simp
+  rw [if_neg hinl] at k3
+  obtain ⟨u6, t4, hkeep, k4⟩ := run_bind_ok.mp k3
+  unfold compileDefs at k4
+  obtain ⟨_, rfl⟩ := run_pure_ok.mp k4
+  obtain ⟨_, _, hfree1⟩ := topExpr_cl (ρ := envOf (inputs.zip x)) amb hov htl he hp1 hk1 hex1 hinp1
+  have hqc1' : t1'.qc = t1.qc := by
+    unfold expqRemoveSymbol at hrs
+    have := run_modify_ok.mp hrs; subst this; rfl
+  obtain ⟨hqc2', _⟩ := expqSet_run hset
+  have hfree3 : t3.qc.free = [] := by rw [mapQubit_keeps_free hmap, hqc2', hqc1']; exact hfree1
+  have hfree4 : s2.qc.free = [] := by
+    unfold keepAncillas at hkeep
+    have := modQC_run hkeep; subst this
+    exact hfree3
+  have hfree : s3.qc.free = [] := by rw [hrf]; exact hfree4
+  -- the final `uncompute_all([])`
+  have hmem3 : ∀ g ∈ s3.qc.gates.toList, g ∈ s2.qc.gates.toList := by
+    intro g hg; rw [hrg] at hg; exact mem_removeIdentitiesList hg
+  have hfin : ∃ U, s.qc.gates.toList = s3.qc.gates.toList ++ U ∧
+      U.map gcore = s3.qc.gates.toList.reverse.map gcore ∧ s.qc.numQubits = s3.qc.numQubits := by
+    dsimp only at h4
+    rcases run_ite_ok.mp h4 with ⟨_, h4⟩ | ⟨hc, _⟩
+    · obtain ⟨qc, s4, hq, h5⟩ := run_bind_ok.mp h4
+      obtain ⟨rfl, rfl⟩ := getQC_run hq
+      obtain ⟨U, e1, e2, _, e4⟩ := uncomputeAll_full h5 hfree
+        (fun g hg => nop_false_of_mcxLike (hg2.gates_ok g (hmem3 g hg)).1)
+      exact ⟨U, e1, e2, e4⟩
+    · exact absurd hunc hc
+  obtain ⟨U, f1, f2, f4⟩ := hfin
+  have hN : s.qc.numQubits = s2.qc.numQubits := f4.trans hrn
+  have hlen : σ.length = s.qc.numQubits := initState_length x _ (by rw [hN, hx]; exact hnin2)
+  have hw : ∀ g ∈ s.qc.gates.toList, ∀ w ∈ g.wires, w < σ.length := by
+    intro g hg w hw
+    rw [hlen]; exact (hgs.gates_ok g hg).2.2.1 w hw
+  have hw3 : ∀ g ∈ s3.qc.gates.toList, ∀ w ∈ g.wires, w < σ.length :=
+    fun g hg => hw g (by rw [f1]; exact List.mem_append_left _ hg)
+  intro p
+  have h1 := congrFun (runF_spec s.qc.gates.toList σ hw) p
+  have h2 := congrFun (runF_spec (s3.qc.gates.toList ++ s3.qc.gates.toList.reverse) σ (by
+    intro g hg
+    rcases List.mem_append.mp hg with hg | hg
+    · exact hw3 g hg
+    · exact hw3 g (List.mem_reverse.mp hg))) p
+  rw [runClassical_reverse_undo _ (fun g hg => (hg2.gates_ok g (hmem3 g hg)).2.1)] at h2
+  refine h1.trans ?_
+  rw [f1, runF_append, runF_gcore f2, ← runF_append]
+  exact h2.symm
 
 end QV.Compiler
